@@ -25,12 +25,15 @@ def run(ctx: Ctx):
     for strat in ("continue", "pause"):
         dc.model_check(ctx, f"DEVS faults ({strat})", dc.consts(MaxId=4, Cmds=CMDS, Bounds=[2], MaxCmds=4 if q else 5, Strategy=strat, **small),
                        need_actions=need)
+    # handlers may switch the error strategy while the run is in progress
+    dc.model_check(ctx, "DEVS faults with strategy switches", dc.consts(MaxId=3, Cmds=["Start", "Step"], Bounds=[], MaxCmds=3 if q else 4, Strategy="continue",
+                                                                        StratOps=[0, 1], **dict(small, MaxOps=2, RelDelays=[1])))
     groups = {}
     bi = 0
     for k, strat in enumerate(("continue", "pause")):
-        cs = dc.consts(MaxId=8, MaxOps=2, Prios=[1, 5], RelDelays=[0, 1, 2], AbsTimes=[], BadKinds=[], Cmds=CMDS, Bounds=[1, 2, 3, 4],
-                       MaxCmds=8, EndT=4, WarmT=2, AllowFaults=True, Strategy=strat)
-        for beh in dc.simulate(ctx, f"DEVS faults {strat}", cs, num=ctx.pick(150, 1500), depth=60, seed=ctx.seed + 50 + k):
+        cs = dc.consts(MaxId=7, MaxOps=2, Prios=[5], RelDelays=[0, 1, 2], AbsTimes=[], BadKinds=[], Cmds=CMDS, Bounds=[1, 2, 3, 4],
+                       MaxCmds=8, EndT=4, WarmT=2, AllowFaults=True, Strategy=strat, StratOps=[0, 1])
+        for beh in dc.simulate(ctx, f"DEVS faults {strat}", cs, num=ctx.pick(120, 1500), depth=60, seed=ctx.seed + 50 + k):
             conc = dd.CONCS_OFF[bi % len(dd.CONCS_OFF)]
             real_strat = strat if strat == "pause" else ("continue", "warn_continue")[bi % 2]
             csr = dict(cs, Strategy=real_strat)
@@ -53,10 +56,10 @@ def run(ctx: Ctx):
         strat = ("continue", "warn_continue", "pause")[i % 3]
         end_t, warm_t = ctx.rng.choice([(4, 2), (6, 0)])
         ctl = dc.random_run(ctx, ctx.rng, conc, end_t, warm_t, strat, cmds=CMDS, ncmds=ctx.rng.choice([3, 6, 10]),
-                            maxev=ctx.rng.choice([6, 12]), p_fault=ctx.rng.choice([0.15, 0.4, 1.0]))
+                            maxev=ctx.rng.choice([6, 12]), p_fault=ctx.rng.choice([0.15, 0.4, 1.0]), p_strat=ctx.rng.choice([0.0, 0.3]))
         ctx.evaluations += 1
         if ctl.errors:
-            ctx.violation("harness|" + ctl.errors[0].split()[0], f"random run {i}: {ctl.errors}", {"trace": dd.clean_trace(ctl.trace)})
+            ctx.violation(dc.err_key(ctl.errors), f"random run {i}: {ctl.errors}", {"trace": dd.clean_trace(ctl.trace)})
             continue
         if any(e["a"] == "Exec" and e["raise"] for e in ctl.trace):
             nfault_runs += 1
